@@ -11,6 +11,8 @@ shutdown signal (harness/src/c12.rs). Three things are checked on every scenario
   (3) an independent replay of the stream table from the log's admissions/removals: every broadcast is written exactly to
       the table of that moment.
 "Connected at that moment" is always defined through the log's iteration structure, never through wall-clock time."""
+import hashlib
+import json
 import os
 import threading
 
@@ -50,6 +52,33 @@ TRUSTED_EXTRA = ['hook H4 (humphrey-ws/src/verif_trace.rs + cfg(humphrey_verif) 
                  'same order (used to attribute broadcast writes to addresses)']
 
 IMPL = hv.IMPL_BIN
+FPR_FILE = os.path.join(hv.V, 'tools/props/c12_fingerprints.json')
+ANCHORS = ['humphrey-ws/src/async_app.rs', 'humphrey/src/thread/pool.rs']
+# what props/C12.v proves about the closed examples (C12_demo, C12_readmission_refuted, C12_blocked_receive_refuted),
+# printed by the extracted code: a spot check of extraction on every run
+EXAMPLES = ('demo=exited[C1,C2,M1.11,M1.12,C3,M1.13,D1,D2,C1][w1.90,w2.90,p2,p1,w1.91,w3.93,w1.93,w2.93,w1.94,w3.94] '
+            'stale_old=running[C7,M7.1,C7,M7.2][] stale_new=running[C7,M7.1,D7,C7,M7.2][] blocked=stuck[C7,M7.1][]')
+
+
+def drifted(ctx):
+    """DESIGN §2 source-drift escalation: the model was written against a known text of the anchored files; when one
+    differs, the quick tier runs a larger sample (a changed fingerprint is not an alarm)"""
+    try:
+        known = json.load(open(FPR_FILE))
+    except (OSError, ValueError):
+        known = {}
+    out = []
+    for rel in ANCHORS:
+        try:
+            cur = hashlib.sha256(open(os.path.join(hv.REPO, rel), 'rb').read()).hexdigest()
+        except OSError:
+            cur = 'missing'
+        if known.get(rel) != cur:
+            out.append(rel)
+            ctx.notes.append('source drift: %s differs from the text the model was written against (sha256 %s...); the quick '
+                             'tier runs 600 scenarios' % (rel, cur[:12]))
+            ctx.count('drift-escalation:' + os.path.basename(rel))
+    return out
 
 
 def run_parallel(lines, nproc, timeout):
@@ -168,6 +197,8 @@ def gen_scenario(rng, thorough):
     link = 'int' if rng.random() < 0.12 else 'ext'
     csleep = rng.choice([0, 0, 0, 0, 0, 0, 5, 30])
     flags = ''.join(c for c in 'gjl' if rng.random() < 0.5) or '-'
+    if rng.random() < 0.08:
+        flags += rng.choice('cmx')             # that handler is not installed
     busy = rng.random() < 0.3
     scripts = [gen_client(rng, n, hb is not None, thorough, busy) for _ in range(n)]
     if rng.random() < 0.15:
@@ -210,6 +241,7 @@ def oracle(line, f, model):
     stats = {}
     a = line.split(' ')
     pool, hbs, csleep, settle = int(a[1]), a[3], int(a[5].split(':')[0]), int(a[6])
+    all_handlers = not any(c in a[5].split(':')[1] for c in 'cmx')
     H = f['H']
     MS = 1000000
     # starts of the iterations that ran to their end: (position in H, start ns); idle runs count with their last start
@@ -239,7 +271,7 @@ def oracle(line, f, model):
     # the session discipline, directly on the logged dispatch sequence: (c m* x)* (c m*)? per address
     open_ = {}
     for e in H:
-        if e[0] == 'd':
+        if e[0] == 'd' and all_handlers:
             ad, k = e[2], e[1]
             o = open_.get(ad, False)
             if (k == 'c' and o) or (k != 'c' and not o):
@@ -450,7 +482,8 @@ def evaluate(ctx, lines, nproc, timeout):
             continue
         f = parse(b)
         parsed.append(f)
-        mlines.append('c12_replay %s cmx %s' % (line.split(' ')[3], ';'.join(','.join(e) for e in f['H']) or '-'))
+        handlers = ''.join(c for c in 'cmx' if c not in line.split(' ')[5].split(':')[1])
+        mlines.append('c12_replay %s %s %s' % (line.split(' ')[3], handlers or '-', ';'.join(','.join(e) for e in f['H']) or '-'))
     mo = ctx.model(mlines)
     res = []
     for line, b, f, mres in zip(lines, im, parsed, mo):
@@ -477,8 +510,13 @@ def run(ctx):
                     if l and not l.startswith('#'):
                         lines.append(l)
         ncorpus = len(lines)
-        for _ in range(4000 if thorough else 40):
+        n = 4000 if thorough else (600 if drifted(ctx) else 40)
+        for _ in range(n):
             lines.append(gen_scenario(rng, thorough))
+        ex = ctx.model(['c12_examples x'])
+        if ex != [EXAMPLES]:
+            ctx.report({'line': 'c12_examples'}, ex[0][:400] if ex else '', EXAMPLES, cls='extraction', failing_input=False,
+                       what='the extracted model does not compute what Coq proved about the closed examples of props/C12.v')
     nproc, timeout = (12, 900) if thorough else (10, 120)
     results = evaluate(ctx, lines, nproc, timeout)
     ctx.evaluations += len(lines)
